@@ -20,10 +20,49 @@ structure CIW (w : W) : Prop where
   inv : SM.Inv w.sm
   alloc : AllocOK w.tabs w.sm
   ci : CI (w.env P) lt w.ex
+  /-- the fragment the theorems speak about: no model-level reference (`stepG` has them) -/
+  noglob : w.sm.globals = []
+
+theorem refPay_noglobals (t : Tabs) (st : SM.St) (hg : st.globals = []) (q : Path) (x : String) :
+    refPay t st q x = (st.mem .refs q x).map (·.payload) := by
+  unfold refPay gpay
+  cases st.mem .refs q x with
+  | some m => rfl
+  | none => simp [hg]
+
+/-- without model-level references a slot is the member entry: the clauses about members give those about slots -/
+theorem coversG_of_covers {t : Tabs} {st st' : SM.St} {cl : List Clear} (h : Covers t st st' cl)
+    (hg : st.globals = []) (hg' : st'.globals = []) : CoversG t st st' cl := by
+  have hne : ∀ q x, refPay t st' q x ≠ refPay t st q x → st'.mem .refs q x ≠ st.mem .refs q x := by
+    intro q x hne heq
+    apply hne
+    rw [refPay_noglobals t st' hg', refPay_noglobals t st hg, heq]
+  refine ⟨h.ns, h.cells, fun q x hd => h.refsNs q x (hne q x hd), ?_⟩
+  intro q x hd hs
+  apply h.refsAttr q x (hne q x hd)
+  rw [refPay_noglobals t st hg] at hs
+  simpa using hs
+
+theorem globals_apply (kw : List String) (st st' : SM.St) (hi : SM.Inv st) (o : SM.Op) (hsup : supported o = true)
+    (hop : st.apply kw o = some st') (hg : st.globals = []) : st'.globals = [] := by
+  have heff := apply_spec kw st st' (keysOK_of_inv hi) o hop
+  cases o with
+  | newSpace parent name bases refs => rw [heff.2.2.1, hg]
+  | delSpace p => rw [heff.globals, hg]
+  | newCells p name fname v => rw [heff.1.globals, hg]
+  | setFormula p name v => rw [heff.1.globals, hg]
+  | delCells p name => rw [heff.1.globals, hg]
+  | renameCells p old new => rw [heff.1.globals, hg]
+  | addBases p bs => rw [heff.globals, hg]
+  | removeBases p bs => rw [heff.globals, hg]
+  | setRef p name v => rw [heff.1.globals, hg]
+  | delRef p name => rw [heff.1.globals, hg]
+  | setGlobal name => cases hsup
+  | delGlobal name => cases hsup
 
 /-- the clearing of the step covers what the step changes -/
 def StepCovers (w : W) : Op → Prop
-  | .struct o => ∀ st', w.sm.apply P.kw o = some st' →
+  | .struct o => supported o = true → ∀ st', w.sm.apply P.kw o = some st' →
       Covers (w.tabs.grow st') w.sm st' (clearing P.kw (w.tabs.grow st') w.sm st' o)
   | _ => True
 
@@ -31,7 +70,7 @@ theorem stepCovers_of_check (w : W) (op : Op) (hs : ∀ o, op = .struct o → su
     (h : stepCovered P w op = true) : StepCovers P w op := by
   cases op with
   | struct o =>
-    intro st' hop
+    intro _ st' hop
     simp only [stepCovered, hs o rfl, if_true, hop] at h
     exact covered_sound _ _ _ _ h
   | _ => trivial
@@ -40,7 +79,7 @@ theorem stepCovers_of_check (w : W) (op : Op) (hs : ∀ o, op = .struct o → su
 theorem stepCovers_of_inv (w : W) (op : Op) (hi : SM.Inv w.sm) : StepCovers P w op := by
   cases op with
   | struct o =>
-    intro st' hop
+    intro hsup st' hop
     have hi' := inv_apply P.kw w.sm st' o hi hop
     cases o with
     | newSpace parent name bases refs => exact covers_newSpace P.kw _ hi hi' parent name bases refs hop
@@ -53,27 +92,8 @@ theorem stepCovers_of_inv (w : W) (op : Op) (hi : SM.Inv w.sm) : StepCovers P w 
     | removeBases p bs => exact covers_removeBases P.kw _ hi hi' p bs hop
     | setRef p name v => exact covers_setRef P.kw _ hi hi' p name v hop
     | delRef p name => exact covers_delRef P.kw _ hi hi' p name hop
-    | setGlobal name =>
-      -- refused by the machine (`supported`); as a structural step it changes no member and no namespace
-      have heff := apply_spec P.kw w.sm st' (keysOK_of_inv hi) _ hop
-      have hsp : st'.spaces = w.sm.spaces := heff.1
-      have hmem : ∀ a q n, st'.mem a q n = w.sm.mem a q n := by
-        intro a q n; unfold St.mem St.find; rw [hsp]
-      have hch : ∀ q, st'.childNames q = w.sm.childNames q := by
-        intro q; unfold St.childNames; rw [hsp]
-      exact ⟨fun q x _ hne => absurd (nsAt_congr _ q (fun a x => by rw [hmem]) (hch q)) hne,
-        fun q x _ hne => absurd (hmem _ _ _) hne, fun q x hne => absurd (hmem _ _ _) hne,
-        fun q x hne => absurd (hmem _ _ _) hne⟩
-    | delGlobal name =>
-      have heff := apply_spec P.kw w.sm st' (keysOK_of_inv hi) _ hop
-      have hsp : st'.spaces = w.sm.spaces := heff.1
-      have hmem : ∀ a q n, st'.mem a q n = w.sm.mem a q n := by
-        intro a q n; unfold St.mem St.find; rw [hsp]
-      have hch : ∀ q, st'.childNames q = w.sm.childNames q := by
-        intro q; unfold St.childNames; rw [hsp]
-      exact ⟨fun q x _ hne => absurd (nsAt_congr _ q (fun a x => by rw [hmem]) (hch q)) hne,
-        fun q x _ hne => absurd (hmem _ _ _) hne, fun q x hne => absurd (hmem _ _ _) hne,
-        fun q x hne => absurd (hmem _ _ _) hne⟩
+    | setGlobal name => cases hsup
+    | delGlobal name => cases hsup
   | _ => trivial
 
 theorem alive_of_member {w : W} (ha : AllocOK w.tabs w.sm) (q : Path) (n : String)
@@ -99,25 +119,27 @@ theorem step_ciw (ho : StrictOrder lt) (w : W) (op : Op) (hw : WF (w.env P) lt) 
         have hext := ext_grow w.tabs st'
         have hw' := wf_ext P hext h.alloc hw
         have hci' := ci_ext P hext h.alloc hw h.ci
-        exact ⟨inv_apply P.kw w.sm st' o h.inv hop, allocOK_grow w.tabs st',
-          struct_ci P hw' hci' (hc st' hop)⟩
+        rename_i hsup
+        have hg' := globals_apply P.kw w.sm st' h.inv o hsup hop h.noglob
+        exact ⟨inv_apply P.kw w.sm st' o h.inv hop, allocOK_grow w.tabs st' h.alloc.slots,
+          struct_ci P hw' hci' (coversG_of_covers (hc hsup st' hop) h.noglob hg'), hg'⟩
     · exact h
   | eval q n key =>
     simp only [step]
     split
     · rename_i hm
-      exact ⟨h.inv, h.alloc, evalTop_ci ho hw.ranked hw.noCatch _ (alive_of_member P h.alloc q n hm) h.ci⟩
+      exact ⟨h.inv, h.alloc, evalTop_ci ho hw.ranked hw.noCatch _ (alive_of_member P h.alloc q n hm) h.ci, h.noglob⟩
     · exact h
   | setValue q n key v =>
     simp only [step]
     split
     · rename_i hm
       simp only [Bool.and_eq_true] at hm
-      exact ⟨h.inv, h.alloc, setValue_ci h.ci _ v hm.2 (alive_of_member P h.alloc q n hm.1)⟩
+      exact ⟨h.inv, h.alloc, setValue_ci h.ci _ v hm.2 (alive_of_member P h.alloc q n hm.1), h.noglob⟩
     · exact h
-  | clearAt q n key => exact ⟨h.inv, h.alloc, clearValueAt_ci h.ci _ true⟩
-  | clear q n => exact ⟨h.inv, h.alloc, clearAllValues_ci h.ci _ false⟩
-  | clearAll q n => exact ⟨h.inv, h.alloc, clearAllValues_ci h.ci _ true⟩
+  | clearAt q n key => exact ⟨h.inv, h.alloc, clearValueAt_ci h.ci _ true, h.noglob⟩
+  | clear q n => exact ⟨h.inv, h.alloc, clearAllValues_ci h.ci _ false, h.noglob⟩
+  | clearAll q n => exact ⟨h.inv, h.alloc, clearAllValues_ci h.ci _ true, h.noglob⟩
 
 /-! ## histories -/
 
@@ -128,7 +150,7 @@ def Admissible : W → List Op → Prop
   | _, [] => True
   | w, op :: ops => WF ((step P w op).env P) lt ∧ Admissible (step P w op) ops
 
-theorem ciw_empty : CIW P lt {} := ⟨inv_empty, allocOK_empty, CI.empty _ lt⟩
+theorem ciw_empty : CIW P lt {} := ⟨inv_empty, allocOK_empty, CI.empty _ lt, rfl⟩
 
 theorem wf_empty : WF (({} : W).env P) lt := by
   have hf : ∀ n, (({} : W).env P).formula n = .raise errDead := by
